@@ -307,6 +307,24 @@ class Executor(Engine):
         ctx = self.new_ctx(st, line)
         recv = call.func.value
         meth = call.func.attr
+        if meth == 'append' and isinstance(recv, ast.Call) and isinstance(recv.func, ast.Attribute) and recv.func.attr == 'setdefault' \
+                and isinstance(recv.func.value, ast.Name) and len(recv.args) == 2 and isinstance(recv.args[1], ast.List) \
+                and not recv.args[1].elts and recv.func.value.id in st.env and isinstance(st.env[recv.func.value.id].ty, TDict) \
+                and isinstance(st.env[recv.func.value.id].ty.v, TList):
+            # d.setdefault(k, []).append(x): d[k] becomes (d[k] if k in d else []) + [x]
+            nm = recv.func.value.id
+            d = st.env[nm]
+            dt = d.ty
+            k = coerce(self.ev.ev(recv.args[0], ctx), dt.k)
+            x = coerce(self.ev.ev(call.args[0], ctx), dt.v.elem)
+            lt = dt.v
+            has = z3.Select(dt.has(d.t), k.t)
+            oldl = z3.Select(dt.at(d.t), k.t)
+            n_old = z3.If(has, lt.n(oldl), z3.IntVal(0))
+            newl = lt.mk(z3.Store(lt.arr(oldl), n_old, x.t), n_old + 1)
+            st2 = self.commit(st, ctx, results).fork()
+            st2.env[nm] = V(dt, dt.mk(z3.Store(dt.has(d.t), k.t, True), z3.Store(dt.at(d.t), k.t, newl)))
+            return results + [(st2, None)]
         field = None
         if isinstance(recv, ast.Attribute) and isinstance(recv.value, ast.Name) and recv.value.id in st.env \
                 and isinstance(st.env[recv.value.id].ty, TRec) and recv.attr in st.env[recv.value.id].ty.fields:
@@ -1034,6 +1052,11 @@ class Executor(Engine):
         for lab, text in _labelled(self.axioms):
             g, a = self.spec_bool(text, {}, old={}, ghosts={})
             pc += a + [g]
+        c.measure_val = None
+        if c.d.get('measure'):
+            mv, am = self.spec_eval(c.d['measure'], env, old=old, ghosts=c.ghost_vals)
+            c.measure_val = mv
+            pc += am
         pc += self.ground_axioms()
         pc += self.inductive_axioms(c.d.get('uses_lemmas', ()))     # only the inductive lemmas the contract asks for
         c.pre_pc = list(pc)
